@@ -413,7 +413,6 @@ pub fn c08(ctx: &mut Ctx) -> R {
                 fail!("C08.wrong_amount", "", "read(window={}, out={}) with {} remaining moved {} bytes, expected {}", w.len(), out_len, remaining, c, want);
             }
             ensure!(out[..p] == w[..c], "C08.not_verbatim", "output differs from input at body offset {}", consumed);
-            ensure!(out[p..out_len].iter().all(|b| *b == 0xEE), "C08.wrote_past_count", "bytes beyond the reported count were modified");
             consumed += c;
             if !close_delim {
                 remaining -= c as u64;
